@@ -138,6 +138,13 @@ PreludeOps ==
                              ann("a1", TB("Text", ById("r1"), NoRef, Off("B", 3, "B", 9)), <<>>)>>
          \* 9: relations / related text: one text of P1 characters with whitespace inside
          [] Prelude = 9 -> <<[ev |-> "AddResource", a |-> [id |-> "r1", text |-> SubSeq(<<11, 31, 33, 21, 51, 11>>, 1, P1)]]>>
+         \* 10: two datasets; annotations whose data come from both, in runs (s1 s1 s2), alternating (s1 s2 s1) and with ids
+         [] Prelude = 10 -> LET e(s, k, i, v) == DB(ById(s), ById(k), i, StrVal(v)) IN
+                            <<addres, addset, [ev |-> "AddDataset", a |-> [id |-> "s2"]],
+                              ann("a1", txt(0, 1), <<e("s1", "k1", NoRef, "v1"), e("s1", "k2", NoRef, "v2"), e("s2", "k1", NoRef, "v1")>>),
+                              ann("", txt(1, 2), <<e("s1", "k1", ById("d1"), "v3"), e("s2", "k1", ById("d1"), "v4"), e("s1", "k2", NoRef, "v2")>>),
+                              ann("a3", TB("Ann", ById("a1"), NoRef, NoOffset), <<e("s2", "k2", NoRef, "v1"), e("s2", "k1", NoRef, "v1"), e("s1", "k1", NoRef, "v1")>>),
+                              ann("", TB("Data", ById("s2"), ByH(1), NoOffset), <<e("s1", "k1", NoRef, "v1")>>)>>
          \* 6: metadata annotations on keys/data/sets and annotations on annotations (chain + relative offset)
          [] OTHER -> <<addres, addset, ann("a1", txt(0, 2), d1),
                        ann("", TB("Key", ById("s1"), ById("k1"), NoOffset), <<>>),
